@@ -897,9 +897,13 @@ func (p *C16WP) refRun(real *c16wOut) c16wExp {
 						}
 					}
 					nw += s.txconds
-					if nw == 0 {
+					global := false
+					for _, st := range p.Steps {
+						global = global || (st.K == "sess" && st.Form == "global")
+					}
+					if nw == 0 && !global {
 						alt.Err = "other" // ErrMissingWhereClause
-					} else {
+					} else { // (under Session{AllowGlobalUpdate} the condition-less UPDATE is sent and hits every visible row)
 						for i := range *AT {
 							r := &(*AT)[i]
 							if r.D != 0 && !s.unscoped {
